@@ -24,7 +24,7 @@
 From Coq Require Import List NArith ZArith Bool Sorted.
 From Verif Require Import Lib.Bytes Lib.Assoc Model.App Model.DKGPure Model.DKGDriver Model.Outbox.
 From Verif Require Import Proofs.DKGChain Proofs.DKGExamples Proofs.OutboxEvolve Proofs.OutboxCoh Proofs.Outbox
-     Proofs.OutboxRun Proofs.OutboxApp Proofs.OutboxExamples.
+     Proofs.OutboxRun Proofs.OutboxMsgs Proofs.OutboxApp Proofs.OutboxExamples.
 From Verif Require Import Generated.DkgPhase Proofs.DkgPhase.
 Import ListNotations.
 Open Scope Z_scope.
@@ -195,27 +195,46 @@ Example C08_same_outcome_partial_nonvacuous :
                w_o w = w_o w' /\ w_log w = w_log w'.
 Proof. split; [exact ObEx.canon_along|exact ObEx.survivors_same]. Qed.
 
-(* Single commitment and outbox consistency, partial.  Proved, for every state and every drawn
-   polynomial: the step that starts dealing for an eon stores the polynomial in the eon's DKG
-   instance, marks it dirty (so the same transaction saves it) and queues exactly the commitment
-   of that polynomial, in one atomic transaction; and (step_sends_head) whatever shuttermint
-   receives is, at that moment, the head row of the durable outbox - never a value from the
-   volatile cache, never a row of a transaction that did not commit.  Missing: the invariant over
-   executions that dealing can start at most once per eon in a committed transaction (the eons
-   table's primary key), hence that all commitments broadcast for one eon are equal; and the
-   analogous statements for evaluations, apologies and the DKG-result vote.  The differential run
-   checks these on the real code (oracle keys C08:two-commitments,
-   C08:eval-inconsistent-with-commitment, C08:apology-inconsistent-with-commitment,
-   C08:vote-differs-from-result). *)
-Theorem C08_single_commitment_partial :
-  forall (C E P : Type) (commit_of : P -> C) (eval_of : P -> nat -> E) (valid_eval : E -> bool)
-         (poly_for : N -> P) (d : db C E P) (s : @sm C E P) (eon : N) (a : active C E P) d1 s1 a1,
-  start1 C E P commit_of eval_of valid_eval poly_for (d, s) eon a = TOk ((d1, s1), a1) ->
-  p_poly (a_pure a1) = Some (poly_for eon) /\ a_dirty a1 = true /\ nget (sm_dkg s1) eon = Some a1 /\
-  In (MCommit eon (commit_of (poly_for eon))) (map (fun r => snd (snd r)) (db_outbox C E P d1)).
-Proof. exact start1_commits. Qed.
-Print Assumptions C08_single_commitment_partial.
+(* Single commitment.  For every execution (any crash schedule, any attempts that did not
+   commit, any randomness): all polynomial commitments of one eon that shuttermint has received
+   from this keyper or that are queued in its outbox are equal - a second dealing for an eon never
+   commits - and whenever the keyper stores a DKG instance with a polynomial for the eon (in the
+   puredkg table, or in a synchronised cache) every such commitment is the commitment of that
+   polynomial. *)
+Theorem C08_single_commitment :
+  forall (C E P : Type) (commit_of : P -> C) (eval_of : P -> nat -> E) (verify : nat -> E -> C -> bool)
+         (deg_ok : N -> C -> bool) (valid_eval : E -> bool) (me : addr) (L : Z)
+         (enum : list (N * active C E P) -> list (N * active C E P)) (delta : Z),
+  enum_entries_ok C E P enum ->
+  forall (ops : list (op C E P)) (w : world C E P),
+  run C E P commit_of eval_of verify deg_ok valid_eval me L enum delta (world_init C E P) ops = Some w ->
+  (forall eon c1 c2, committed C E P (w_log w) (o_db (w_o w)) eon c1 ->
+                     committed C E P (w_log w) (o_db (w_o w)) eon c2 -> c1 = c2) /\
+  (forall eon pu p c, nget (db_pure C E P (o_db (w_o w))) eon = Some pu -> p_poly pu = Some p ->
+                      committed C E P (w_log w) (o_db (w_o w)) eon c -> c = commit_of p) /\
+  (forall eon a p c, sm_sync (w_sm w) = true -> nget (sm_dkg (w_sm w)) eon = Some a -> p_poly (a_pure a) = Some p ->
+                     committed C E P (w_log w) (o_db (w_o w)) eon c -> c = commit_of p).
+Proof. intros. eapply single_commitment; eassumption. Qed.
+Print Assumptions C08_single_commitment.
 
+Example C08_single_commitment_nonvacuous :
+  exists w pu, ObEx.run_ops (firstn 6 ObEx.ops) = Some w /\
+            committed DkgEx.C DkgEx.E DkgEx.P (w_log w) (o_db (w_o w)) 1%N 10%N /\
+            nget (db_pure _ _ _ (o_db (w_o w))) 1%N = Some pu /\ p_poly pu = Some 10%N.
+Proof.
+  vm_compute. do 2 eexists. split; [reflexivity|]. split; [|split; reflexivity].
+  repeat (first [left; reflexivity | right]).
+Qed.
+
+(* Outbox consistency, partial.  Proved for every step: whatever shuttermint receives is, at that
+   moment, the head row of the durable outbox - never a value from the volatile cache, never a
+   row of a transaction that did not commit.  Missing: the statements analogous to
+   C08_single_commitment for evaluations, apologies and the DKG-result vote over executions (the
+   primitive updates of Proofs/OutboxEvolve.v carry the facts: an evaluation row and an apology
+   value are computed from the polynomial the instance holds in that step, the result vote is
+   queued together with the result row).  The differential run checks these on the real code
+   (oracle keys C08:eval-inconsistent-with-commitment, C08:apology-inconsistent-with-commitment,
+   C08:vote-differs-from-result). *)
 Theorem C08_outbox_consistent_partial :
   forall (C E P : Type) (commit_of : P -> C) (eval_of : P -> nat -> E) (verify : nat -> E -> C -> bool)
          (deg_ok : N -> C -> bool) (valid_eval : E -> bool) (me : addr) (L : Z)
@@ -226,11 +245,6 @@ Theorem C08_outbox_consistent_partial :
   exists id ds m a, head C E P (o_db (w_o w)) = Some (id, (ds, m)) /\ w_log w' = w_log w ++ [(id, m, a)] /\ w_o w' = w_o w.
 Proof. exact step_sends_head. Qed.
 Print Assumptions C08_outbox_consistent_partial.
-
-Example C08_single_commitment_partial_nonvacuous :
-  exists w, ObEx.run_ops (firstn 6 ObEx.ops) = Some w /\
-            In (MCommit 1%N 10%N) (map (fun r => snd (snd r)) (db_outbox _ _ _ (o_db (w_o w)))).
-Proof. vm_compute. eexists. split; [reflexivity|]. right. left. reflexivity. Qed.
 
 (* The phase function the block transaction uses is the one generated from
    keyper/dkgphase/phase.go on every check (see C07_phase_function_agrees_with_source). *)
